@@ -2,8 +2,12 @@
 C05  Incremental recalculation equals recalculation from scratch.
 Model: GristModel/Recalc.lean.  Helper lemmas: GristProofs/Recalc*.lean (see the header of
 GristProps/C18.lean for `WFState`, `Good`, `Inv`, `DependsOnSelf`, `Ev.isCalc`).
+Second part (L): the bookkeeping BELOW that model -- which referring rows a `_LookupRelation` of
+lookup.py hands to `engine.invalidate_records` when keys of a lookup index change, and its
+`_invalidated_keys_cache`.  Model: GristModel/LookupRel.lean, helper lemmas: GristProofs/LookupRel.lean.
 -/
 import GristProofs.RecalcExamples
+import GristProofs.LookupRel
 namespace Grist.Recalc
 
 /-! ### (U1) the invariant is preserved by every transition -/
@@ -105,3 +109,245 @@ example : ∃ t1 t2,
     (by decide) (by decide) (by decide)
 
 end Grist.Recalc
+
+/-! ## (L) lookup.py `_LookupRelation`: which referring rows are invalidated
+
+Everything below is about arbitrary operation sequences on one relation, starting from the empty
+relation `{}` (a relation is created empty by `_RelationTracker._get_relation`).  `run true` is the
+code; `run false` is the variant whose `_add_lookup` does not clear `_invalidated_keys_cache` (the
+seeded change seeded/C05-c05).  `handedBy s ks` = the rows `invalidate_affected_keys(ks)` passes to
+`engine.invalidate_records` in relation state `s` (`[]` if it does not call the engine). -/
+namespace Grist.LookupRel
+
+/-- what the driver prints for an `invalidate` operation is `handedBy` -/
+theorem output_invalidate (clear : Bool) (st : St) (ks : List Key) :
+    ((step clear st (.invalidate ks)).2).getD [] = handedBy st.rel ks := by
+  simp only [step, handedBy]
+  split <;> next heq => simp [heq]
+
+/-! ### (L1) frame / exactness: the map is exactly the lookups recorded since each row's last reset -/
+
+/-- `(r, k)` is in `_row_key_map` iff some `_add_lookup(r, k)` was followed by no `reset_rows`
+    containing `r`, no `reset_rows(ALL_ROWS)` and no `reset_all` (code and variant alike) -/
+theorem lookuprel_map_exact (clear : Bool) (ops : List Op) (r : Row) (k : Key) :
+    (r, k) ∈ (run clear {} ops).rel.map ↔
+      ∃ pre post, ops = pre ++ Op.add r k :: post ∧ ∀ o ∈ post, o.resets r = false := by
+  rw [map_lastWriter]
+  constructor
+  · rintro (⟨h, _⟩ | h)
+    · simp at h
+    · exact h
+  · exact Or.inr
+
+/-- ... and it holds each pair once -/
+theorem lookuprel_map_nodup (clear : Bool) (ops : List Op) : (run clear {} ops).rel.map.Nodup :=
+  map_nodup clear {} (by simp) ops
+
+example : (run true {} [.add 1 5, .add 2 5, .add 1 6, .resetRows [1], .add 1 7]).rel.map
+    = [(2, 5), (1, 7)] := by decide
+
+example : ∃ pre post, [Op.add 1 5, .add 2 5, .add 1 6, .resetRows [1], .add 1 7]
+    = pre ++ Op.add 2 5 :: post ∧ ∀ o ∈ post, o.resets 2 = false :=
+  ⟨[.add 1 5], [.add 1 6, .resetRows [1], .add 1 7], rfl, by decide⟩
+
+/-- `get_affected_rows_by_keys` (used by `get_affected_rows` and by `invalidate_affected_keys`):
+    exactly the rows mapped to one of the keys; `None` maps to nothing -/
+theorem lookuprel_affected_rows (m : List (Row × Key)) (keys : List Key) (r : Row) :
+    r ∈ affectedRowsByKeys m keys ↔ ∃ k ∈ keys, k ≠ noneKey ∧ (r, k) ∈ m :=
+  mem_affectedRowsByKeys
+
+example : affectedRowsByKeys [(1, 5), (2, 5), (3, 6), (4, 0)] [0, 5] = [1, 2] := by decide
+
+/-! ### (L2) the central safety statement: the cache never suppresses a row that was not already
+handed over for that key since the cache was last cleared -/
+
+/-- what `invalidate_affected_keys(ks)` hands over: the rows mapped to a key of `ks` that is neither
+    `None` nor in the cache -/
+theorem lookuprel_handedBy (s : Rel) (ks : List Key) (r : Row) :
+    r ∈ handedBy s ks ↔ ∃ k ∈ ks, k ∉ s.cache ∧ k ≠ noneKey ∧ (r, k) ∈ s.map :=
+  mem_handedBy
+
+/-- a key is in the cache iff an `invalidate_affected_keys(ks)` with that key handed rows over and
+    no `_add_lookup` / `reset_rows` / `reset_all` came after it -/
+theorem lookuprel_cache_exact (ops : List Op) (k : Key) :
+    k ∈ (run true {} ops).rel.cache ↔
+      ∃ pre ks post, ops = pre ++ Op.invalidate ks :: post ∧ k ∈ ks ∧
+        handedBy (run true {} pre).rel ks ≠ [] ∧ ∀ o ∈ post, o.clearsCache = false := by
+  rw [cache_lastWriter]
+  constructor
+  · rintro (⟨h, _⟩ | h)
+    · simp at h
+    · exact h
+  · exact Or.inr
+
+/-- key 5 is cached by the invalidation that handed row 1 over; key 6 (same call) too; the later
+    `_add_lookup` clears both -/
+example : (run true {} [.add 1 5, .invalidate [5, 6]]).rel.cache = [5, 6] ∧
+    (run true {} [.add 1 5, .invalidate [5, 6], .add 2 6]).rel.cache = [] ∧
+    handedBy (run true {} [.add 1 5, .invalidate [5, 6]]).rel [5, 6] = [] ∧
+    handedBy (run true {} [.add 1 5, .invalidate [5, 6], .add 2 6]).rel [5, 6] = [1, 2] := by decide
+
+/-- SAFETY.  After ANY operation sequence: a referring row `r` that recorded a lookup of key `k`
+    and was not reset since is handed to `invalidate_records` by every
+    `invalidate_affected_keys(ks)` with `k ∈ ks` -- unless an earlier `invalidate_affected_keys(ks')`
+    with `k ∈ ks'` already handed `r` over and since then no lookup was recorded and nothing was
+    reset (no operation cleared the cache).  (`ops` is any prefix of any sequence: the statement
+    covers the `invalidate` operation at every position; what the driver prints there is `handedBy`,
+    see `output_invalidate`.) -/
+theorem lookuprel_handed_or_already_handed (ops : List Op) (r : Row) (k : Key) (hk : k ≠ noneKey)
+    (hrec : ∃ pre post, ops = pre ++ Op.add r k :: post ∧ ∀ o ∈ post, o.resets r = false)
+    (ks : List Key) (hks : k ∈ ks) :
+    r ∈ handedBy (run true {} ops).rel ks ∨
+    ∃ pre ks' post, ops = pre ++ Op.invalidate ks' :: post ∧ k ∈ ks' ∧
+      r ∈ handedBy (run true {} pre).rel ks' ∧ ∀ o ∈ post, o.clearsCache = false := by
+  have hm : (r, k) ∈ (run true {} ops).rel.map := (lookuprel_map_exact true ops r k).2 hrec
+  by_cases hc : k ∈ (run true {} ops).rel.cache
+  · right
+    have hh := invA_run invA_empty ops r k hc hk hm
+    rcases (handed_lastWriter r k {} ops).1 hh with ⟨h0, _⟩ | ⟨pre, ks', post, heq, hp, hpost⟩
+    · simp at h0
+    · have hp' := mem_handedPairs.1 hp
+      exact ⟨pre, ks', post, heq, hp'.2.1,
+        mem_handedBy.2 ⟨k, hp'.2.1, hp'.2.2.1, hp'.2.2.2, hp'.1⟩, hpost⟩
+  · left
+    exact mem_handedBy.2 ⟨k, hks, hc, hk, hm⟩
+
+/-- both branches occur: row 2 is handed over by the second invalidation (a lookup was recorded in
+    between, the cache was cleared); the third one is suppressed for both rows, which were handed
+    over by the second one -/
+example : outputs true {} [.add 1 5, .invalidate [5], .add 2 5, .invalidate [5], .invalidate [5, 6]]
+    = [none, some [1], none, some [1, 2], none] := by decide
+
+example : ∃ pre post, [Op.add 1 5, .invalidate [5], .add 2 5, .invalidate [5]]
+    = pre ++ Op.add 2 5 :: post ∧ ∀ o ∈ post, o.resets 2 = false :=
+  ⟨[.add 1 5, .invalidate [5]], [.invalidate [5]], rfl, by decide⟩
+
+/-! ### (L3) the same one level up: rows the engine treats as up to date
+
+Ghost fields (GristModel/LookupRel.lean `Ghost`), each characterised below by the operation
+sequence alone: `live` = lookups recorded by the latest evaluation the engine began for that row,
+`clean` = rows whose latest evaluation began after they were last handed over / reset. -/
+
+/-- `live`: recorded by an `_add_lookup(r, k)` after which no evaluation of `r` began (and the
+    relation was not dropped by `reset_all`) -/
+theorem lookuprel_live_exact (clear : Bool) (ops : List Op) (r : Row) (k : Key) :
+    (r, k) ∈ (run clear {} ops).g.live ↔
+      ∃ pre post, ops = pre ++ Op.add r k :: post ∧
+        ∀ o ∈ post, o ≠ Op.beginEval r ∧ o ≠ Op.resetAll := by
+  rw [live_lastWriter]
+  constructor
+  · rintro (⟨h, _⟩ | h)
+    · simp at h
+    · exact h
+  · exact Or.inr
+
+/-- `clean`: an evaluation of `r` began, and along the rest of the run `r` was neither reset nor
+    handed to `invalidate_records` (`Unclean`) -/
+theorem lookuprel_clean_exact (clear : Bool) (ops : List Op) (r : Row) :
+    r ∈ (run clear {} ops).g.clean ↔
+      ∃ pre post, ops = pre ++ Op.beginEval r :: post ∧
+        NoUnset clear (Unclean r) (next clear (run clear {} pre) (Op.beginEval r)) post := by
+  rw [clean_lastWriter]
+  constructor
+  · rintro (⟨h, _⟩ | h)
+    · simp at h
+    · exact h
+  · exact Or.inr
+
+/-- After ANY operation sequence: if the evaluation of `r` that the engine began last looked up
+    `k`, and `r` was neither handed over nor reset since that evaluation began, then EVERY
+    `invalidate_affected_keys(ks)` with `k ∈ ks` hands `r` over -- the cache never stands in the way. -/
+theorem lookuprel_clean_live_handed (ops : List Op) (r : Row) (k : Key) (hk : k ≠ noneKey)
+    (hl : (r, k) ∈ (run true {} ops).g.live) (hc : r ∈ (run true {} ops).g.clean)
+    (ks : List Key) (hks : k ∈ ks) :
+    r ∈ handedBy (run true {} ops).rel ks := by
+  have := invB_run invB_empty ops r k hl hc hk
+  exact mem_handedBy.2 ⟨k, hks, this.2, hk, this.1⟩
+
+/-- THE EXPLICIT HYPOTHESIS about the engine: `engineSettled` -- at every `settled rows`
+    observation of the sequence (the harness makes one at the end of every bundle: the referring
+    rows that exist and are not in `recompute_map`), every such row whose latest evaluation recorded
+    lookups began that evaluation after it was last handed to `invalidate_records` / passed to
+    `reset_rows`.  (`Engine._recompute_step` removes a dirty row from `recompute_map` after
+    `_recompute_one_cell`, when the row is absent from the table, or -- the case in which the
+    hypothesis fails -- unevaluated when it was already evaluated in the same update.)  Under it: at every such
+    observation, every lookup of a settled row's latest evaluation is honoured by every later
+    invalidation of that key. -/
+theorem lookuprel_settled_rows_handed (ops : List Op) (hyp : engineSettled true {} ops = true)
+    (pre post : List Op) (rows : List Row) (heq : ops = pre ++ Op.settled rows :: post)
+    (r : Row) (hr : r ∈ rows) (k : Key) (hk : k ≠ noneKey)
+    (hl : (r, k) ∈ (run true {} pre).g.live) (ks : List Key) (hks : k ∈ ks) :
+    r ∈ handedBy (run true {} pre).rel ks := by
+  subst heq
+  have hs := settledOk_iff.1 (engineSettled_at hyp) r hr ⟨k, hl⟩
+  exact lookuprel_clean_live_handed pre r k hk hl hs ks hks
+
+/-- a sequence of the shape the engine produces (evaluate rows 1 and 2, the index changes key 5,
+    both are handed over, re-evaluated, row 2 now looks up key 6; end of bundle): the hypothesis
+    holds, and a change of key 6 hands over row 2, a change of key 5 row 1 -/
+def okOps : List Op :=
+  [.beginEval 1, .add 1 5, .beginEval 2, .add 2 5, .invalidate [5], .resetRows [1, 2],
+   .beginEval 1, .add 1 5, .beginEval 2, .add 2 6, .settled [1, 2]]
+
+example : engineSettled true {} okOps = true ∧
+    (2, 6) ∈ (run true {} okOps).g.live ∧ 2 ∈ (run true {} okOps).g.clean ∧
+    handedBy (run true {} okOps).rel [6] = [2] ∧ handedBy (run true {} okOps).rel [5, 9] = [1] := by
+  decide
+
+/-- the theorem applied to that sequence: all its hypotheses hold together -/
+example : 2 ∈ handedBy (run true {} (okOps.take 10)).rel [6] :=
+  lookuprel_settled_rows_handed okOps (by decide) (okOps.take 10) [] [1, 2] (by decide) 2 (by decide)
+    6 (by decide) (by decide) [6] (by decide)
+
+/-- the hypothesis is not vacuous either way: it fails for a sequence in which a handed-over row is
+    never evaluated again -/
+example : engineSettled true {} [.beginEval 1, .add 1 5, .invalidate [5], .settled [1]] = false := by
+  decide
+
+/-! ### (L4) negation witness: without the cache clear in `_add_lookup` all of this fails -/
+
+/-- row 1 looks up key 7 and is handed over (key 7 is cached); then row 2 looks up key 7 -/
+def mutOps : List Op := [.beginEval 1, .add 1 7, .invalidate [7], .beginEval 2, .add 2 7]
+
+/-- in the VARIANT (`run false`) row 2's lookup of key 7 is recorded, live, row 2 is clean and was
+    never handed over -- yet `invalidate_affected_keys([7])` hands over nothing: the stale cache
+    entry suppresses it.  The code (`run true`) hands over rows 1 and 2. -/
+theorem lookuprel_variant_suppresses_needed_row :
+    (2, 7) ∈ (run false {} mutOps).rel.map ∧ (2, 7) ∈ (run false {} mutOps).g.live ∧
+    2 ∈ (run false {} mutOps).g.clean ∧ (2, 7) ∉ (run false {} mutOps).g.handed ∧
+    handedBy (run false {} mutOps).rel [7] = [] ∧
+    outputs false {} (mutOps ++ [.invalidate [7]]) = [none, none, some [1], none, none, none] ∧
+    outputs true {} (mutOps ++ [.invalidate [7]]) = [none, none, some [1], none, none, some [1, 2]] := by
+  decide
+
+/-- hence the two invariants behind (L2) and (L3) are false of the variant ... -/
+theorem lookuprel_variant_breaks_invariants :
+    ¬ (∀ ops, InvA (run false {} ops)) ∧ ¬ (∀ ops, InvB (run false {} ops)) := by
+  constructor
+  · intro h
+    exact absurd (h mutOps 2 7 (by decide) (by decide) (by decide)) (by decide)
+  · intro h
+    exact absurd (h mutOps 2 7 (by decide) (by decide) (by decide)).2 (by decide)
+
+/-- ... and so is the statement of (L3) itself -/
+theorem lookuprel_variant_fails_L3 :
+    ¬ (∀ (ops : List Op) (r : Row) (k : Key), k ≠ noneKey → (r, k) ∈ (run false {} ops).g.live →
+        r ∈ (run false {} ops).g.clean → ∀ ks, k ∈ ks → r ∈ handedBy (run false {} ops).rel ks) := by
+  intro h
+  exact absurd (h mutOps 2 7 (by decide) (by decide) (by decide) [7] (by decide)) (by decide)
+
+/-- The variant behaves like the code exactly as long as no lookup is recorded while the cache is
+    non-empty (`addsOnEmptyCache`: a `reset_rows` between every invalidation and the next lookup).
+    That is what the variant's author assumed of the engine; the engine does not do it (an
+    evaluation retried after an OrderError records its lookups again without `reset_rows`; a node
+    already started in this update is not reset again) -- the harness counts the recorded traces on
+    which `addsOnEmptyCache` fails and those on which the variant would answer differently. -/
+theorem lookuprel_variant_agrees_if_adds_on_empty_cache (ops : List Op)
+    (h : addsOnEmptyCache false {} ops = true) :
+    (run false {} ops).rel = (run true {} ops).rel ∧ outputs false {} ops = outputs true {} ops :=
+  variant_agrees_aux ops {} {} rfl h
+
+example : addsOnEmptyCache false {} okOps = true := by decide
+example : addsOnEmptyCache false {} mutOps = false := by decide
+
+end Grist.LookupRel
